@@ -393,6 +393,71 @@ mod verif_bounded_mdk {
             }
         }}
     }
+    // C16: an invitation processed again (same wrapper id) returns the same stored welcome and creates nothing; a merely received, a
+    // declined and a malformed invitation never yield an active group; accepting puts the joiner in the inviter's post-commit state with
+    // the self-update obligation pending; an invitation to ANOTHER group leaves a group in which the user is active exactly as it was.
+    // (Invitations for an MLS group id the recipient already holds are the recorded finding F3 and are not part of this history.)
+    // Scope: one inviter, a memory-backed and a SQLite-backed joiner, 2 groups, 1 malformed invitation; every step on both joiners.
+    #[test]
+    fn invitation_history() {
+        let label = "mdk_backends_bounded.invitation_history";
+        fn run<S: MdkStorageProvider>(label: &str, back: &str, j: &MDK<S>) {
+            let bad = |scen: &str, what: String| -> ! { panic!("BOUNDED-COUNTEREXAMPLE {label}: scenario [history ({back} joiner): {scen}] {what}") };
+            let (ak, jk) = (Keys::generate(), Keys::generate());
+            let a = create_test_mdk();
+            let wid = |n: u8| nostr::EventId::from_slice(&[n; 32]).unwrap();
+            // group 1: received, received again, accepted
+            let res = a.create_group(&ak.public_key(), vec![create_key_package_event(j, &jk)], create_nostr_group_config_data(vec![ak.public_key()])).unwrap();
+            let g1 = res.group.mls_group_id.clone();
+            a.merge_pending_commit(&g1).unwrap();
+            let mut scen = String::from("alice invites the user to g1 ; process_welcome");
+            let w1 = j.process_welcome(&wid(1), &res.welcome_rumors[0]).unwrap_or_else(|e| bad(&scen, format!("a valid invitation is refused: {e:?}")));
+            let st = j.get_group(&g1).unwrap().map(|g| format!("{:?}", g.state));
+            if st.as_deref() == Some("Active") { bad(&scen, "a merely received invitation yields an ACTIVE group".into()); }
+            if j.create_message(&g1, create_test_rumor(&jk, "x")).is_ok() { bad(&scen, "the user can send to a group whose invitation was only received".into()); }
+            scen.push_str(" ; process_welcome again (same wrapper id)");
+            let w1b = j.process_welcome(&wid(1), &res.welcome_rumors[0]).unwrap_or_else(|e| bad(&scen, format!("the second processing fails: {e:?}")));
+            if w1b != w1 { bad(&scen, format!("the second processing returns a different welcome: {:?} vs {:?}", w1b.id, w1.id)); }
+            let n = j.get_pending_welcomes(None).unwrap().len();
+            if n != 1 { bad(&scen, format!("{n} pending welcomes are stored, not 1")); }
+            if j.get_groups().unwrap().len() != 1 { bad(&scen, format!("{} groups are stored, not 1", j.get_groups().unwrap().len())); }
+            scen.push_str(" ; accept_welcome");
+            j.accept_welcome(&w1).unwrap_or_else(|e| bad(&scen, format!("accepting a valid invitation fails: {e:?}")));
+            let (gj, ga) = (j.get_group(&g1).unwrap().expect("joined group"), a.get_group(&g1).unwrap().unwrap());
+            if format!("{:?}", gj.state) != "Active" { bad(&scen, format!("the joined group is {:?}", gj.state)); }
+            if (gj.epoch, &gj.name, &gj.description, &gj.admin_pubkeys, gj.nostr_group_id, gj.image_hash) != (ga.epoch, &ga.name, &ga.description, &ga.admin_pubkeys, ga.nostr_group_id, ga.image_hash) {
+                bad(&scen, format!("the joiner's record differs from the inviter's: epoch {} / {}, name {:?} / {:?}, nostr id equal {}", gj.epoch, ga.epoch, gj.name, ga.name, gj.nostr_group_id == ga.nostr_group_id)); }
+            if j.get_members(&g1).unwrap() != a.get_members(&g1).unwrap() { bad(&scen, "the joiner's member set differs from the inviter's".into()); }
+            if j.get_relays(&g1).unwrap() != a.get_relays(&g1).unwrap() { bad(&scen, "the joiner's relay set differs from the inviter's".into()); }
+            if gj.self_update_state != mdk_storage_traits::groups::types::SelfUpdateState::Required { bad(&scen, format!("the self-update obligation is {:?}, not Required", gj.self_update_state)); }
+            let m = a.create_message(&g1, create_test_rumor(&ak, "hello")).unwrap();
+            if !matches!(j.process_message(&m), Ok(crate::messages::MessageProcessingResult::ApplicationMessage(_))) { bad(&scen, "the joiner cannot read the inviter's next message".into()); }
+            let snapshot_g1 = |j: &MDK<S>| { let g = j.get_group(&g1).unwrap().unwrap(); (g.epoch, g.name.clone(), format!("{:?}", g.state), g.nostr_group_id, g.admin_pubkeys.clone(), j.get_members(&g1).unwrap(), j.get_messages(&g1, None).unwrap().len()) };
+            let before = snapshot_g1(j);
+            // group 2: received and declined
+            let res2 = a.create_group(&ak.public_key(), vec![create_key_package_event(j, &jk)], create_nostr_group_config_data(vec![ak.public_key()])).unwrap();
+            let g2 = res2.group.mls_group_id.clone();
+            a.merge_pending_commit(&g2).unwrap();
+            scen.push_str(" ; alice invites the user to g2 ; process_welcome ; decline_welcome");
+            let w2 = j.process_welcome(&wid(2), &res2.welcome_rumors[0]).unwrap_or_else(|e| bad(&scen, format!("a valid invitation is refused: {e:?}")));
+            j.decline_welcome(&w2).unwrap_or_else(|e| bad(&scen, format!("declining fails: {e:?}")));
+            if j.get_group(&g2).unwrap().map(|g| format!("{:?}", g.state)).as_deref() == Some("Active") { bad(&scen, "a declined invitation yields an ACTIVE group".into()); }
+            if j.create_message(&g2, create_test_rumor(&jk, "x")).is_ok() { bad(&scen, "the user can send to a group whose invitation was declined".into()); }
+            if j.get_pending_welcomes(None).unwrap().len() != 0 { bad(&scen, format!("{} welcomes are still pending", j.get_pending_welcomes(None).unwrap().len())); }
+            if snapshot_g1(j) != before { bad(&scen, "the group the user is active in (g1) changed".into()); }
+            // a malformed invitation (content is not a welcome), delivered twice
+            scen.push_str(" ; a malformed invitation (content replaced) is delivered twice");
+            let mut junk = res2.welcome_rumors[0].clone(); junk.content = "AAAA".into(); junk.id = None; junk.ensure_id();
+            let groups_before = j.get_groups().unwrap().len();
+            let r1 = j.process_welcome(&wid(3), &junk); let r2 = j.process_welcome(&wid(3), &junk);
+            if r1.is_ok() || r2.is_ok() { bad(&scen, format!("the malformed invitation is accepted ({} / {})", r1.is_ok(), r2.is_ok())); }
+            if j.get_groups().unwrap().len() != groups_before { bad(&scen, "the malformed invitation created a group".into()); }
+            if j.get_pending_welcomes(None).unwrap().len() != 0 { bad(&scen, "the malformed invitation left a pending welcome".into()); }
+            if snapshot_g1(j) != before { bad(&scen, "the group the user is active in (g1) changed".into()); }
+        }
+        run(label, "memory-backed", &create_test_mdk());
+        run(label, "SQLite-backed", &MDK::new(MdkSqliteStorage::new_unencrypted(":memory:").unwrap()));
+    }
     // C05: a commit that a NON-admin member builds directly with the MLS library (bypassing the client-side admin gate) and that does
     // more than refresh its author's own key -- a group-data rewrite making the author an admin, a removal, an add -- is refused by
     // both bystanders and leaves them exactly as they were. Scope: one hostile member, three crafted commits, each delivered twice.
